@@ -60,6 +60,9 @@ func genStreams(r *simrt.RNG, tier string, variant int, prop string) Plan {
 			op.Size = 1 + r.Intn(n-1)
 		}
 		tok++
+		if prop == "C08" && r.Bool(0.25) {
+			op.IgnoreCtx = true // the handler keeps sending after a cancellation
+		}
 		if r.Bool(0.15) {
 			op.Stall = true
 		} else if r.Bool(0.1) && prop == "C07" {
